@@ -5,6 +5,18 @@
 #include "refcrc.h"
 #include "cpusim.h"
 
+/* the calls exactly as an application writes them: through the public headers (whatever prototype, macro or inline wrapper they provide) */
+#include "crc.h"
+#include "crc64.h"
+#include "igzip_lib.h"
+static uint16_t hdr_crc16_t10dif(uint16_t s, const unsigned char *b, uint64_t n) { return crc16_t10dif(s, b, n); }
+static uint16_t hdr_crc16_t10dif_copy(uint16_t s, uint8_t *d, uint8_t *b, uint64_t n) { return crc16_t10dif_copy(s, d, b, n); }
+static uint32_t hdr_crc32_ieee(uint32_t s, const unsigned char *b, uint64_t n) { return crc32_ieee(s, b, n); }
+static uint32_t hdr_crc32_gzip_refl(uint32_t s, const unsigned char *b, uint64_t n) { return crc32_gzip_refl(s, b, n); }
+static unsigned int hdr_crc32_iscsi(unsigned char *b, int n, unsigned int s) { return crc32_iscsi(b, n, s); }
+static uint32_t hdr_isal_adler32(uint32_t s, const unsigned char *b, uint64_t n) { return isal_adler32(s, b, n); }
+#define HDR64(f) static uint64_t hdr_##f(uint64_t s, const unsigned char *b, uint64_t n) { return f(s, b, n); }
+HDR64(crc64_ecma_refl) HDR64(crc64_ecma_norm) HDR64(crc64_iso_refl) HDR64(crc64_iso_norm) HDR64(crc64_jones_refl) HDR64(crc64_jones_norm) HDR64(crc64_rocksoft_refl) HDR64(crc64_rocksoft_norm)
 enum { K_CRC16, K_CRC16COPY, K_IEEE, K_GZIP, K_ISCSI, K_CRC64, K_ADLER, K_BAM1 };
 typedef struct { const char *name; void *fn; int kind; int cat; const char *isa; int ok; long calls; uint64_t resmask, alnmask; uint8_t seen_len[1101]; } csym;
 #define X(s, n, isa) extern char ksym_##s[] __asm__(#s);
@@ -32,6 +44,13 @@ static csym syms[] = {
 #define X(s, n, isa) { #s, (void *) ksym_##s, K_ADLER, 0, isa },
 	V_ADLER_LIST(X)
 #undef X
+	{ "crc16_t10dif@crc.h", (void *) hdr_crc16_t10dif, K_CRC16, RC_T10DIF, "disp" }, { "crc16_t10dif_copy@crc.h", (void *) hdr_crc16_t10dif_copy, K_CRC16COPY, RC_T10DIF, "disp" },
+	{ "crc32_ieee@crc.h", (void *) hdr_crc32_ieee, K_IEEE, RC_IEEE, "disp" }, { "crc32_gzip_refl@crc.h", (void *) hdr_crc32_gzip_refl, K_GZIP, RC_GZIP, "disp" },
+	{ "crc32_iscsi@crc.h", (void *) hdr_crc32_iscsi, K_ISCSI, RC_ISCSI, "disp" }, { "isal_adler32@igzip_lib.h", (void *) hdr_isal_adler32, K_ADLER, 0, "disp" },
+	{ "crc64_ecma_refl@crc64.h", (void *) hdr_crc64_ecma_refl, K_CRC64, RC_ECMA_REFL, "disp" }, { "crc64_ecma_norm@crc64.h", (void *) hdr_crc64_ecma_norm, K_CRC64, RC_ECMA_NORM, "disp" },
+	{ "crc64_iso_refl@crc64.h", (void *) hdr_crc64_iso_refl, K_CRC64, RC_ISO_REFL, "disp" }, { "crc64_iso_norm@crc64.h", (void *) hdr_crc64_iso_norm, K_CRC64, RC_ISO_NORM, "disp" },
+	{ "crc64_jones_refl@crc64.h", (void *) hdr_crc64_jones_refl, K_CRC64, RC_JONES_REFL, "disp" }, { "crc64_jones_norm@crc64.h", (void *) hdr_crc64_jones_norm, K_CRC64, RC_JONES_NORM, "disp" },
+	{ "crc64_rocksoft_refl@crc64.h", (void *) hdr_crc64_rocksoft_refl, K_CRC64, RC_ROCKSOFT_REFL, "disp" }, { "crc64_rocksoft_norm@crc64.h", (void *) hdr_crc64_rocksoft_norm, K_CRC64, RC_ROCKSOFT_NORM, "disp" },
 };
 #define NSYMS ((int) (sizeof syms / sizeof syms[0]))
 #define BUFMAX (1u << 20)
